@@ -285,6 +285,38 @@ theorem delete_add_cancel (s : Pool) (h p : Nat) (hi : Inv s)
   have hinv := delete_inv _ h (add_inv s h p hi)
   rw [hinv.2 q, horph, hi.2 q]
 
+theorem filter_ne_length (os : List Orphan) (hn : IdsNodup os) (m : Orphan) (hm : m ∈ os) :
+    (os.filter (fun x => x.id != m.id)).length + 1 = os.length := by
+  induction os with
+  | nil => cases hm
+  | cons a t ih =>
+    unfold IdsNodup at hn ih
+    simp only [List.map_cons, List.nodup_cons] at hn
+    by_cases ha : a.id = m.id
+    · have ht : t.filter (fun x => x.id != m.id) = t := by
+        apply List.filter_eq_self.mpr
+        intro x hx
+        have : x.id ≠ m.id := by
+          intro e; exact hn.1 (List.mem_map.mpr ⟨x, hx, e.trans ha.symm⟩)
+        simpa using this
+      simp [List.filter_cons, ha, ht]
+    · have hmt : m ∈ t := by
+        rcases List.mem_cons.mp hm with h | h
+        · exact absurd (by rw [h]) ha
+        · exact h
+      have := ih hn.2 hmt
+      simp [List.filter_cons, ha]; omega
+
+/-- **Eviction removes exactly one orphan**: an Add of a new block into a reachable full pool
+    leaves the pool exactly full. -/
+theorem add_full_keeps_size (s : Pool) (h p : Nat) (m : Orphan) (hi : Inv s)
+    (hnew : s.find h = none) (hfull : s.orphans.length = s.limit) (hm : minExp s.orphans = some m) :
+    (s.add h p).orphans.length = s.limit := by
+  have := (add_full_evicts_oldest s h p m hnew (by omega) hm).1
+  rw [this, List.length_append]
+  have := filter_ne_length s.orphans hi.1 m (minExp_mem _ _ hm)
+  simp; omega
+
 example : Inv ((Pool.init 2).run [.add 1 7, .add 2 7, .add 3 1, .expire 2]) := reachable_inv _ _
 
 -- hypotheses of delete_add_cancel are satisfiable on a non-trivial pool (a test)
